@@ -220,6 +220,10 @@ def run_case(case):
                     'mechanism': 'empty-without-days-left-something',
                     'detail': {'left': left[:6], 'run': r.brief()}})
         # nothing outside files/ and info/ may change
+        ci = trashworld.created_inside(s0, s1, case['trashes'])
+        if ci:
+            out['violations'].append({'mechanism': 'purge-created-something-in-trash',
+                                      'detail': {'created': ci[:6], 'run': r.brief()}})
         od = trashworld.outside_trash_diff(s0, s1, case['trashes'])
         if od:
             out['violations'].append({'mechanism': 'changed-outside-trash',
